@@ -103,6 +103,7 @@ def run_driver_on(exe, args_fn, cases, workroot, tag, sanitize, timeout=600):
     start = 0
     attempt = 0
     crashes = []
+    timeouts_here = 0
     while start < len(cases):
         attempt += 1
         wd = tempfile.mkdtemp(prefix='%s-' % tag, dir=workroot)
@@ -138,6 +139,14 @@ def run_driver_on(exe, args_fn, cases, workroot, tag, sanitize, timeout=600):
         shutil.rmtree(wd, ignore_errors=True)
         if crashed_at is None:
             break
+        if err == 'TIMEOUT' and (crashed_at > 0 or timeouts_here < 2):
+            # the time limit hit (a loaded machine, not a hang): continue from the unfinished case with a doubled limit;
+            # only a case that alone exceeds the limit twice in a row is reported
+            timeouts_here = timeouts_here + 1 if crashed_at == 0 else 0
+            timeout *= 2
+            start = start + crashed_at
+            continue
+        timeouts_here = 0
         # the process died inside case `crashed_at`
         lo, hi = ranges[crashed_at]
         got = [d.get(k) for k in range(lo, hi + 1)]
